@@ -189,10 +189,19 @@ theorem bnJump_ok_iff {boxes : List Box} {x : List Rat} {fuel : Nat} {draws ys :
 theorem DBox.containsZ_iff {b : DBox} {k : Int} : b.containsZ k = true ↔ b.ilo ≤ k ∧ k ≤ b.ihi := by
   simp [DBox.containsZ]
 
+theorem DBox.accepts_iff {b : DBox} {x0 : Int} {d : Rat} :
+    b.accepts x0 d = true ↔
+      (b.ilo ≤ x0 + dstep b.succ d ∧ x0 + dstep b.succ d ≤ b.ihi) ∧
+      (b.succ = false → dstep b.succ d ≠ 0) := by
+  unfold DBox.accepts
+  rw [Bool.and_eq_true, DBox.containsZ_iff]
+  cases b.succ <;> simp
+
 theorem bdFirst_in {b : DBox} {x0 : Int} :
     ∀ {f : Nat} {ds : List Rat} {y : Int} {r : List Rat},
       bdFirst b x0 f ds = some (y, r) →
-        b.ilo ≤ y ∧ y ≤ b.ihi ∧ ∃ d ∈ ds, y = x0 + dstep b.succ d
+        b.ilo ≤ y ∧ y ≤ b.ihi ∧ ∃ d ∈ ds, y = x0 + dstep b.succ d ∧
+          (b.succ = false → dstep b.succ d ≠ 0)
   | 0, _, _, _, h => by simp [bdFirst] at h
   | _ + 1, [], _, _, h => by simp [bdFirst] at h
   | f + 1, d :: ds, y, r, h => by
@@ -201,7 +210,8 @@ theorem bdFirst_in {b : DBox} {x0 : Int} :
     · rename_i hok
       simp only [Option.some.injEq, Prod.mk.injEq] at h
       obtain ⟨rfl, rfl⟩ := h
-      exact ⟨(DBox.containsZ_iff.mp hok).1, (DBox.containsZ_iff.mp hok).2, d, by simp, rfl⟩
+      obtain ⟨⟨h1, h2⟩, h3⟩ := DBox.accepts_iff.mp hok
+      exact ⟨h1, h2, d, by simp, rfl, h3⟩
     · obtain ⟨h1, h2, d', hd', he⟩ := bdFirst_in h
       exact ⟨h1, h2, d', List.mem_cons_of_mem _ hd', he⟩
 
@@ -228,7 +238,7 @@ theorem bdLoop_in {fuel : Nat} :
       · rename_i ys' r' hl
         simp only [Option.some.injEq, Prod.mk.injEq] at h
         obtain ⟨rfl, rfl⟩ := h
-        obtain ⟨h1, h2, d, _, he⟩ := bdFirst_in hf
+        obtain ⟨h1, h2, d, _, he, _⟩ := bdFirst_in hf
         exact .cons ⟨h1, h2, d, he⟩ (bdLoop_in hl)
 
 theorem bdLoop_length {fuel : Nat} :
@@ -261,25 +271,33 @@ theorem bdJump_ok_iff {boxes : List DBox} {x : List Rat} {fuel : Nat} {draws : L
     | some p => obtain ⟨ys', r⟩ := p; simp [Outcome.toOption]
   · simp [hx, Outcome.toOption]
 
-theorem ndLoop_spec :
+theorem ndOk_false {d : Rat} (h : ndOk false d = true) : d ≠ 0 := by
+  simpa [ndOk] using h
+
+/-- What `ndLoop` returns: per parameter the truncated start plus the integer image of a draw
+    that the parameter accepts (any draw with successive jumps, a non-zero one otherwise). -/
+theorem ndLoop_spec {fuel : Nat} :
     ∀ {succ : List Bool} {x ds : List Rat} {ys : List Int} {r : List Rat},
-      ndLoop succ x ds = some (ys, r) →
-      List.Forall₂ (fun (sx : Bool × (Rat × Rat)) y => y = truncZ sx.2.1 + dstep sx.1 sx.2.2)
-        (succ.zip (x.zip ds)) ys
+      ndLoop fuel succ x ds = some (ys, r) →
+      List.Forall₂ (fun (sx : Bool × Rat) (y : Int) =>
+          ∃ d : Rat, ndOk sx.1 d = true ∧ y = truncZ sx.2 + dstep sx.1 d)
+        (succ.zip x) ys
   | [], x, ds, ys, r, h => by
     simp only [ndLoop, Option.some.injEq, Prod.mk.injEq] at h
     obtain ⟨rfl, _⟩ := h
     simp
   | s :: ss, [], ds, ys, r, h => by simp [ndLoop] at h
-  | s :: ss, x :: xs, [], ys, r, h => by simp [ndLoop] at h
-  | s :: ss, x :: xs, d :: ds, ys, r, h => by
+  | s :: ss, x :: xs, ds, ys, r, h => by
     unfold ndLoop at h
     split at h
     · simp at h
-    · rename_i ys' r' hl
-      simp only [Option.some.injEq, Prod.mk.injEq] at h
-      obtain ⟨rfl, rfl⟩ := h
-      exact .cons rfl (ndLoop_spec hl)
+    · rename_i d ds' hf
+      split at h
+      · simp at h
+      · rename_i ys' r' hl
+        simp only [Option.some.injEq, Prod.mk.injEq] at h
+        obtain ⟨rfl, rfl⟩ := h
+        exact .cons ⟨d, (firstIn_ok hf).1, rfl⟩ (ndLoop_spec hl)
 
 /-! ### angular -/
 
@@ -409,47 +427,86 @@ theorem birthUniform_range {b : Box} {u : Rat} (hb : b.lo ≤ b.hi) (h0 : 0 ≤ 
 
 /-! ### real analysis behind the solid-angle proposal -/
 
-open Real in
-/-- The inverse cdf of the von Mises–Fisher polar angle, as `_new_point` writes it:
-    with `norm = κ/(4π sinh κ)`, `w = log(e^κ − κ·u/(2π·norm)) / κ`. -/
+/-- The inverse cdf of the von Mises–Fisher polar angle as `_new_point` now writes it:
+    `costheta = 1 + log1p(u·expm1(−2κ))/κ`. -/
 noncomputable def vmfW (κ u : ℝ) : ℝ :=
-  Real.log (Real.exp κ - κ * u / (2 * π * (κ / (4 * π * Real.sinh κ)))) / κ
+  1 + Real.log (1 + u * (Real.exp (-2 * κ) - 1)) / κ
 
-open Real in
+/-- The expression the code used before (with `norm = κ/(4π sinh κ)`), kept to show that the
+    rewrite did not change the law. -/
+noncomputable def vmfWOld (κ u : ℝ) : ℝ :=
+  Real.log (Real.exp κ - κ * u / (2 * Real.pi * (κ / (4 * Real.pi * Real.sinh κ)))) / κ
+
+theorem vmf_inner_bounds {κ u : ℝ} (hκ : 0 < κ) (h0 : 0 ≤ u) (h1 : u ≤ 1) :
+    Real.exp (-2 * κ) ≤ 1 + u * (Real.exp (-2 * κ) - 1) ∧ 1 + u * (Real.exp (-2 * κ) - 1) ≤ 1 := by
+  have he : 0 < Real.exp (-2 * κ) := Real.exp_pos _
+  have he1 : Real.exp (-2 * κ) < 1 := by
+    have := Real.exp_lt_exp.mpr (show -2 * κ < 0 by linarith)
+    rwa [Real.exp_zero] at this
+  constructor <;> nlinarith
+
+theorem vmfW_range {κ u : ℝ} (hκ : 0 < κ) (h0 : 0 ≤ u) (h1 : u ≤ 1) :
+    -1 ≤ vmfW κ u ∧ vmfW κ u ≤ 1 := by
+  obtain ⟨hl, hu⟩ := vmf_inner_bounds hκ h0 h1
+  have he : 0 < Real.exp (-2 * κ) := Real.exp_pos _
+  have hpos : 0 < 1 + u * (Real.exp (-2 * κ) - 1) := lt_of_lt_of_le he hl
+  have l1 : -2 * κ ≤ Real.log (1 + u * (Real.exp (-2 * κ) - 1)) := by
+    have := Real.log_le_log he hl
+    rwa [Real.log_exp] at this
+  have l2 : Real.log (1 + u * (Real.exp (-2 * κ) - 1)) ≤ 0 := by
+    have := Real.log_le_log hpos hu
+    rwa [Real.log_one] at this
+  unfold vmfW
+  constructor
+  · have : -2 ≤ Real.log (1 + u * (Real.exp (-2 * κ) - 1)) / κ := by
+      rw [le_div_iff₀ hκ]; linarith
+    linarith
+  · have : Real.log (1 + u * (Real.exp (-2 * κ) - 1)) / κ ≤ 0 :=
+      div_nonpos_of_nonpos_of_nonneg l2 hκ.le
+    linarith
+
 theorem vmf_arg_eq {κ : ℝ} (hκ : 0 < κ) (u : ℝ) :
-    Real.exp κ - κ * u / (2 * π * (κ / (4 * π * Real.sinh κ)))
-      = Real.exp κ * (1 - u) + u * Real.exp (-κ) := by
+    Real.exp κ - κ * u / (2 * Real.pi * (κ / (4 * Real.pi * Real.sinh κ)))
+      = Real.exp κ * (1 + u * (Real.exp (-2 * κ) - 1)) := by
   have hs : Real.sinh κ ≠ 0 := by
     have hlt : Real.exp (-κ) < Real.exp κ := Real.exp_lt_exp.mpr (by linarith)
     have : 0 < Real.sinh κ := by rw [Real.sinh_eq]; linarith
     exact ne_of_gt this
-  have hpi : (π : ℝ) ≠ 0 := Real.pi_ne_zero
+  have hpi : (Real.pi : ℝ) ≠ 0 := Real.pi_ne_zero
   have hk : κ ≠ 0 := ne_of_gt hκ
-  have : κ * u / (2 * π * (κ / (4 * π * Real.sinh κ))) = 2 * u * Real.sinh κ := by
+  have h1 : κ * u / (2 * Real.pi * (κ / (4 * Real.pi * Real.sinh κ))) = 2 * u * Real.sinh κ := by
     field_simp
     ring
-  rw [this, Real.sinh_eq]
+  have h2 : Real.exp κ * Real.exp (-2 * κ) = Real.exp (-κ) := by
+    rw [← Real.exp_add]; congr 1; ring
+  rw [h1, Real.sinh_eq]
+  have : Real.exp κ * (1 + u * (Real.exp (-2 * κ) - 1))
+      = Real.exp κ + u * (Real.exp κ * Real.exp (-2 * κ)) - u * Real.exp κ := by ring
+  rw [this, h2]
   ring
 
-theorem vmfW_range {κ u : ℝ} (hκ : 0 < κ) (h0 : 0 ≤ u) (h1 : u < 1) :
-    -1 < vmfW κ u ∧ vmfW κ u ≤ 1 := by
-  unfold vmfW
-  rw [vmf_arg_eq hκ u]
-  have hE : 0 < Real.exp κ := Real.exp_pos κ
-  have hN : 0 < Real.exp (-κ) := Real.exp_pos (-κ)
-  have hlt : Real.exp (-κ) < Real.exp κ := Real.exp_lt_exp.mpr (by linarith)
-  have hlow : Real.exp (-κ) < Real.exp κ * (1 - u) + u * Real.exp (-κ) := by nlinarith
-  have hup : Real.exp κ * (1 - u) + u * Real.exp (-κ) ≤ Real.exp κ := by nlinarith
-  have hpos : 0 < Real.exp κ * (1 - u) + u * Real.exp (-κ) := lt_trans hN hlow
-  have l1 : -κ < Real.log (Real.exp κ * (1 - u) + u * Real.exp (-κ)) := by
-    have := Real.log_lt_log hN hlow
-    rwa [Real.log_exp] at this
-  have l2 : Real.log (Real.exp κ * (1 - u) + u * Real.exp (-κ)) ≤ κ := by
-    have := Real.log_le_log hpos hup
-    rwa [Real.log_exp] at this
-  constructor
-  · rw [lt_div_iff₀ hκ]; linarith
-  · rw [div_le_iff₀ hκ]; linarith
+theorem vmfW_eq_old {κ u : ℝ} (hκ : 0 < κ) (h0 : 0 ≤ u) (h1 : u ≤ 1) : vmfWOld κ u = vmfW κ u := by
+  obtain ⟨hl, _⟩ := vmf_inner_bounds hκ h0 h1
+  have he : 0 < Real.exp (-2 * κ) := Real.exp_pos _
+  have hpos : 0 < 1 + u * (Real.exp (-2 * κ) - 1) := lt_of_lt_of_le he hl
+  unfold vmfWOld vmfW
+  rw [vmf_arg_eq hκ u, Real.log_mul (ne_of_gt (Real.exp_pos κ)) (ne_of_gt hpos), Real.log_exp]
+  field_simp
+
+theorem clip1_range (q : Rat) : -1 ≤ clip1 q ∧ clip1 q ≤ 1 := by
+  unfold clip1
+  split
+  · constructor <;> norm_num
+  · split
+    · constructor <;> norm_num
+    · constructor <;> linarith
+
+theorem clipXR_range {x : XR} {w : Rat} (h : clipXR x = .fin w) : -1 ≤ w ∧ w ≤ 1 := by
+  cases x with
+  | fin q => simp only [clipXR, XR.fin.injEq] at h; subst h; exact clip1_range q
+  | nan => simp [clipXR] at h
+  | pinf => simp only [clipXR, XR.fin.injEq] at h; subst h; constructor <;> norm_num
+  | ninf => simp only [clipXR, XR.fin.injEq] at h; subst h; constructor <;> norm_num
 
 /-- The rotation of `_rotmat` preserves the Euclidean norm whenever its entries are the
     cosine and sine of two angles (in any commutative ring). -/
@@ -500,30 +557,17 @@ theorem allInTol_false_of_outside : ∀ {boxes : List Box} {x : List Rat} (i : N
 
 /-! ### non-successive discrete jumps move -/
 
-theorem bdFirst_rest_subset {b : DBox} {x0 : Int} :
-    ∀ {f : Nat} {ds : List Rat} {y : Int} {r : List Rat},
-      bdFirst b x0 f ds = some (y, r) → ∀ z, z ∈ r → z ∈ ds
-  | 0, _, _, _, h => by simp [bdFirst] at h
-  | _ + 1, [], _, _, h => by simp [bdFirst] at h
-  | f + 1, d :: ds, y, r, h => by
-    unfold bdFirst at h
-    split at h
-    · simp only [Option.some.injEq, Prod.mk.injEq] at h
-      obtain ⟨_, rfl⟩ := h
-      intro z hz; exact List.mem_cons_of_mem _ hz
-    · intro z hz; exact List.mem_cons_of_mem _ (bdFirst_rest_subset h z hz)
-
 theorem bdLoop_moves {fuel : Nat} :
     ∀ {boxes : List DBox} {x ds : List Rat} {ys : List Int} {r : List Rat},
-      bdLoop fuel boxes x ds = some (ys, r) → (∀ d ∈ ds, d ≠ 0) →
+      bdLoop fuel boxes x ds = some (ys, r) →
       List.Forall₂ (fun (bx : DBox × Rat) (y : Int) => bx.1.succ = false → y ≠ truncZ bx.2)
         (boxes.zip x) ys
-  | [], x, ds, ys, r, h, _ => by
+  | [], x, ds, ys, r, h => by
     simp only [bdLoop, Option.some.injEq, Prod.mk.injEq] at h
     obtain ⟨rfl, _⟩ := h
     simp
-  | b :: bs, [], ds, ys, r, h, _ => by simp [bdLoop] at h
-  | b :: bs, x :: xs, ds, ys, r, h, hd => by
+  | b :: bs, [], ds, ys, r, h => by simp [bdLoop] at h
+  | b :: bs, x :: xs, ds, ys, r, h => by
     unfold bdLoop at h
     split at h
     · simp at h
@@ -533,38 +577,24 @@ theorem bdLoop_moves {fuel : Nat} :
       · rename_i ys' r' hl
         simp only [Option.some.injEq, Prod.mk.injEq] at h
         obtain ⟨rfl, rfl⟩ := h
-        obtain ⟨_, _, d, hmem, he⟩ := bdFirst_in hf
-        refine .cons ?_ (bdLoop_moves hl (fun z hz => hd z (bdFirst_rest_subset hf z hz)))
+        obtain ⟨_, _, d, _, he, hne⟩ := bdFirst_in hf
+        refine .cons ?_ (bdLoop_moves hl)
         intro hs
         have hs' : b.succ = false := hs
-        have := floorceil_ne_zero (hd d hmem)
-        simp only [dstep, hs', Bool.false_eq_true, if_false] at he
+        have := hne hs'
         simp only
         omega
 
-theorem ndLoop_moves :
-    ∀ {succ : List Bool} {x ds : List Rat} {ys : List Int} {r : List Rat},
-      ndLoop succ x ds = some (ys, r) → (∀ d ∈ ds, d ≠ 0) →
-      List.Forall₂ (fun (sx : Bool × Rat) (y : Int) => sx.1 = false → y ≠ truncZ sx.2) (succ.zip x) ys
-  | [], x, ds, ys, r, h, _ => by
-    simp only [ndLoop, Option.some.injEq, Prod.mk.injEq] at h
-    obtain ⟨rfl, _⟩ := h
-    simp
-  | s :: ss, [], ds, ys, r, h, _ => by simp [ndLoop] at h
-  | s :: ss, x :: xs, [], ys, r, h, _ => by simp [ndLoop] at h
-  | s :: ss, x :: xs, d :: ds, ys, r, h, hd => by
-    unfold ndLoop at h
-    split at h
-    · simp at h
-    · rename_i ys' r' hl
-      simp only [Option.some.injEq, Prod.mk.injEq] at h
-      obtain ⟨rfl, rfl⟩ := h
-      refine .cons ?_ (ndLoop_moves hl (fun z hz => hd z (List.mem_cons_of_mem _ hz)))
-      intro hs
-      have := floorceil_ne_zero (hd d (by simp))
-      simp only at hs
-      simp only [dstep, hs, Bool.false_eq_true, if_false]
-      omega
+theorem ndLoop_moves {fuel : Nat} {succ : List Bool} {x ds : List Rat} {ys : List Int} {r : List Rat}
+    (h : ndLoop fuel succ x ds = some (ys, r)) :
+    List.Forall₂ (fun (sx : Bool × Rat) (y : Int) => sx.1 = false → y ≠ truncZ sx.2) (succ.zip x) ys := by
+  refine (ndLoop_spec h).imp ?_
+  rintro ⟨s, x⟩ y ⟨d, hok, rfl⟩ hs
+  have hs' : s = false := hs
+  subst hs'
+  have := floorceil_ne_zero (ndOk_false hok)
+  simp only [dstep, Bool.false_eq_true, if_false]
+  omega
 
 /-- `_cartesian2spherical` over the reals (`arctan2(y, x) = arg(x + iy)`), in the four
     conventions: azimuth in `[0, 2π)` resp. `[0, 360)`; polar angle in `[0, π]`,
@@ -593,6 +623,11 @@ theorem useFin_not_ok {name : String} {s : Site} {m scale dev : Rat} {p t d : Ra
   unfold useFin at h
   split at h <;> simp at h
 
+theorem useFin_not_nan {name : String} {s : Site} {m scale dev : Rat} {site : String} {d : Rat}
+    (h : useFin name s m scale dev = .error (.nan site d)) : False := by
+  unfold useFin at h
+  split at h <;> simp at h
+
 theorem useAcos_ok {name : String} {s : Site} {m dev : Rat} {r : Rat × Rat}
     (h : useAcos name s m dev = .ok r) :
     s.val = .fin r.1 ∧ ∃ a, s.arg = .fin a ∧ -1 ≤ a ∧ a ≤ 1 := by
@@ -614,6 +649,14 @@ theorem useAcos_not_ok {name : String} {s : Site} {m dev : Rat} {p t d : Rat}
   unfold useAcos at h
   repeat' (split at h <;> try (simp at h; done))
 
+/-- An `arccos` site yields the NaN outcome only if numpy's recorded value is NaN. -/
+theorem useAcos_nan {name : String} {s : Site} {m dev : Rat} {site : String} {d : Rat}
+    (h : useAcos name s m dev = .error (.nan site d)) : s.val = .nan := by
+  unfold useAcos at h
+  repeat' (split at h <;> try (simp at h; done))
+  all_goals assumption
+
+set_option maxHeartbeats 2000000 in
 theorem saJump_ok {k : Consts} {c : SACfg} {p t u1 u2 : Rat} {o : SAOracle} {phi theta dev : Rat}
     (h : saJump k c p t u1 u2 o = .ok phi theta dev) :
     ∃ a tt z, o.atan2.val = .fin a ∧ o.acosZ.val = .fin tt ∧ o.acosZ.arg = .fin z ∧ -1 ≤ z ∧ z ≤ 1 ∧
@@ -623,13 +666,14 @@ theorem saJump_ok {k : Consts} {c : SACfg} {p t u1 u2 : Rat} {o : SAOracle} {phi
   · rename_i r hr
     subst h
     unfold saJumpE at hr
-    simp only [bind, Except.bind, pure, Except.pure] at hr
+    simp only [bind, Except.bind, pure, Except.pure, throw, throwThe, MonadExceptOf.throw] at hr
     repeat' (split at hr <;> try (simp at hr; done))
-    rename_i hat _ _ hz
-    obtain ⟨hv, z, hz1, hz2, hz3⟩ := useAcos_ok hz
-    simp only [Except.ok.injEq, SAOut.ok.injEq] at hr
-    obtain ⟨rfl, rfl, _⟩ := hr
-    exact ⟨_, _, z, hat, hv, hz1, hz2, hz3, rfl⟩
+    all_goals
+      (rename_i hat _ _ hz
+       obtain ⟨hv, z, hz1, hz2, hz3⟩ := useAcos_ok hz
+       simp only [Except.ok.injEq, SAOut.ok.injEq] at hr
+       obtain ⟨rfl, rfl, _⟩ := hr
+       exact ⟨_, _, z, hat, hv, hz1, hz2, hz3, rfl⟩)
   · rename_i r hr
     subst h
     exfalso
@@ -639,5 +683,33 @@ theorem saJump_ok {k : Consts} {c : SACfg} {p t u1 u2 : Rat} {o : SAOracle} {phi
     all_goals
       (simp only [Except.error.injEq] at hr; subst hr
        first | exact useFin_not_ok ‹_› | exact useAcos_not_ok ‹_›)
+
+set_option maxHeartbeats 2000000 in
+/-- The model reports a NaN coordinate only where numpy itself returned NaN: at `log1p` or at
+    one of the four `arccos` calls (the one for γ exists only away from the poles). -/
+theorem saJump_nan {k : Consts} {c : SACfg} {p t u1 u2 : Rat} {o : SAOracle} {site : String} {dev : Rat}
+    (h : saJump k c p t u1 u2 o = .nan site dev) :
+    o.log1p.val = .nan ∨ o.acosW.val = .nan ∨ o.acosMz.val = .nan ∨
+      (∃ s, o.acosG = some s ∧ s.val = .nan) ∨ o.acosZ.val = .nan := by
+  unfold saJump at h
+  split at h
+  · rename_i r hr
+    subst h
+    exfalso
+    unfold saJumpE at hr
+    simp only [bind, Except.bind, pure, Except.pure, throw, throwThe, MonadExceptOf.throw] at hr
+    repeat' (split at hr <;> try (simp at hr; done))
+  · rename_i r hr
+    subst h
+    unfold saJumpE at hr
+    simp only [bind, Except.bind, pure, Except.pure, throw, throwThe, MonadExceptOf.throw] at hr
+    repeat' (split at hr <;> try (simp at hr; done))
+    all_goals
+      first
+      | (exfalso; simp only [Except.error.injEq] at hr; subst hr; exact useFin_not_nan ‹_›)
+      | (simp only [Except.error.injEq] at hr; subst hr
+         have := useAcos_nan ‹_›
+         simp_all)
+      | simp_all
 
 end Epsie.Domain
